@@ -1,3 +1,5 @@
 INIT Init
 NEXT Next
 INVARIANT Out
+CONSTANTS
+  Mode = "base"
